@@ -33,7 +33,7 @@ RULE = ("limit runs: files / archives / members of size L-1, L, L+1 around every
         "text:s counts, declared dimensions, entities, deep nesting, extreme-ratio members, many-From mboxes) and count/length-field faults on "
         "the corpus, under RLIMIT_AS / CPU budgets scaled by input size; distinct non-trivial = (family, parameter class, outcome class)")
 ASSUMPTIONS = [
-    "budget: peak additional RSS <= 256 MiB + 64*U and CPU <= 20 s + 100 us*U, U = max(len(input), declared uncompressed size); calibrated with >= 8x headroom over the fault-free corpus",
+    "budget for amplifier families: peak additional RSS <= 256 MiB + 64*U and CPU <= 20 s + 100 us*U, U = max(len(input), declared uncompressed size), calibrated with >= 8x headroom over the fault-free corpus; for blind count-field faults 1 GiB + 256*U and 40 s + 400 us*U (only runaway growth)",
     "RLIMIT_AS is set just above the memory bound: a runaway allocation surfaces as MemoryError (possibly wrapped) or a killed child; candidates are confirmed twice alone",
     "amplifiers that need a purpose-built document are generated in their simplest form only; the evidence lists which families ran",
     "decompression events are ZipFile.open / TarFile.extractfile / file writes under the private temp dir (audit log)",
@@ -266,7 +266,10 @@ def _forge_7z_unpack_size(arc: bytes, real: int, declared: int) -> bytes:
 
 
 # ------------------------------------------------------------------------------------------------ budgets
-def _budget(U: int):
+def _budget(U: int, mode: str = "amp"):
+    if mode == "fault":
+        # blind count-field faults also produce legitimately heavy (large but linear) documents: only runaway growth is flagged
+        return 4 * MEM_BASE + 4 * MEM_PER_BYTE * U, 2 * CPU_BASE + 4 * CPU_PER_BYTE * U
     return MEM_BASE + MEM_PER_BYTE * U, CPU_BASE + CPU_PER_BYTE * U
 
 
@@ -344,9 +347,8 @@ def _family_sig(case) -> str:
             return f"ratio_member|{case['fmt']}|{case['ext']}"
         return f
     if case["mode"] == "fault":
-        op = case["ops"][0]
-        k = op[2][1][0] if op[0] == "zip" else "le_field"
-        return f"fault|{iosim.ext_of(case['doc'])}|{k}"
+        ks = sorted({(op[2][1][0] if op[0] == "zip" else "le_field") for op in case["ops"]})
+        return f"fault|{iosim.ext_of(case['doc'])}|{'+'.join(ks)}"
     return case["mode"]
 
 
@@ -354,7 +356,7 @@ def _family_sig(case) -> str:
 def _run_budgeted(case, data, route_name, U, viol, probes, log):
     from sharepoint2text.parsing.exceptions import ExtractionError
     from sharepoint2text.parsing.router import get_extractor
-    mem_b, cpu_b = _budget(U)
+    mem_b, cpu_b = _budget(U, case["mode"])
     iosim.arm_budgets(cpu_b, int(mem_b * 1.15) + (64 << 20))
     _reset_peak_rss()
     rss0 = _rss_now()
